@@ -5,6 +5,8 @@
 // (2) every FFT64 module-level and table-level entry point is executed under native and generic
 // dispatch on identical arguments. (Both members of every pair are also compared with the exact
 // oracles of C01/C02/C06/C10/C14/C17; those checks run the same kernels.)
+#include <pthread.h>
+
 #include "ops.h"
 #include "oracle.h"
 
@@ -160,6 +162,78 @@ static void pair_case(int oi, uint64_t N, unsigned sd) {
   case_end(nontrivial);
 }
 
+// the accelerated member of a pair run by several threads at once (private data, shared tables): it must still
+// compute the reference function — an accelerated kernel with hidden shared scratch is not "the same function"
+typedef struct {
+  const opdef_t* o;
+  const env_t* e;
+  uint64_t seed;
+  unsigned mis;
+  int iters;
+  opres_t last;
+  uint64_t first_hash;
+  int unstable;
+  pthread_barrier_t* bar;
+} cthr_t;
+static void* cworker(void* arg) {
+  cthr_t* t = arg;
+  pthread_barrier_wait(t->bar);
+  for (int i = 0; i < t->iters; i++) {
+    opres_t r;
+    op_exec(t->o, t->e, t->seed, i & 3, t->mis, MON_CAPTURE, &r);
+    if (i == 0) t->first_hash = r.out_hash;
+    else if (r.out_hash != t->first_hash) t->unstable = 1;
+    if (i == t->iters - 1) t->last = r;
+    else {
+      free(r.cap_in);
+      free(r.cap_out);
+    }
+  }
+  return 0;
+}
+static void concurrent_pair_case(int oi, uint64_t N, unsigned rep) {
+  const opdef_t* acc = &OPS[oi];
+  const int ri = op_find(acc->twin);
+  const pclass_t cl = classify(acc->name);
+  char key[160];
+  snprintf(key, sizeof key, "%s~%s|%s,4 threads", acc->name, acc->twin, cl_name[cl]);
+  if (!case_begin(key, "N=%" PRIu64 " rep=%u", N, rep)) return;
+  env_t* e = env_of(N, 1);
+  enum { T = 4 };
+  cthr_t th[T];
+  pthread_t tid[T];
+  pthread_barrier_t bar;
+  pthread_barrier_init(&bar, 0, T);
+  for (int t = 0; t < T; t++) {
+    memset(&th[t], 0, sizeof th[t]);
+    th[t].o = acc;
+    th[t].e = e;
+    th[t].seed = mix64(G.seed * 31 + rep * 1013 + (uint64_t)t * 7 + N);
+    th[t].mis = (unsigned)t;
+    th[t].iters = N <= 1024 ? 40 : 6;
+    th[t].bar = &bar;
+    pthread_create(&tid[t], 0, cworker, &th[t]);
+  }
+  for (int t = 0; t < T; t++) pthread_join(tid[t], 0);
+  pthread_barrier_destroy(&bar);
+  int nontrivial = 0;
+  for (int t = 0; t < T; t++) {
+    if (th[t].last.skipped) continue;
+    opres_t rr;
+    op_exec(&OPS[ri], e, th[t].seed, 1, th[t].mis + 1, MON_CAPTURE, &rr);
+    char msg[240];
+    double worst;
+    if (cl == CL_ROUND_TNX32) rr.d[0] = th[t].last.d[0] = (double)(N / 2);
+    if (th[t].unstable) viol("pair", "%s: repeated calls with equal arguments gave different results while 4 threads were running it (N=%" PRIu64 ")", acc->name, N);
+    else if (!rr.skipped && compare(cl, &rr, &th[t].last, msg, sizeof msg, &worst)) viol("pair", "%s run by 4 threads vs %s run alone [N=%" PRIu64 "]: %s", acc->name, acc->twin, N, msg);
+    nontrivial |= th[t].last.cap_out_bytes > 0;
+    free(rr.cap_in); free(rr.cap_out); free(th[t].last.cap_in); free(th[t].last.cap_out);
+    cnt("concurrent_pair_comparisons", 1);
+  }
+  sample("4 threads x %d calls of the accelerated kernel, each equal to the reference", th[0].iters);
+  case_end(nontrivial);
+}
+
 // public API under both dispatch configurations on identical arguments
 static int api_is_float(const char* name) {
   static const char* F[] = {"vec_znx_dft", "svp_prepare", "svp_apply_dft", "vmp_prepare_contiguous", "vmp_apply_dft", "vmp_apply_dft_to_dft", "reim_fft", "reim_ifft", "reim_fftvec_mul", "reim_fftvec_addmul",
@@ -271,6 +345,14 @@ void run_C07(void) {
       if ((o->flags & (OPF_FFT64 | OPF_TABLE)) && !(o->flags & OPF_AVX) && !strstr(o->name, "q120") && !strstr(o->name, "fresh table"))
         for (unsigned sd = 0; sd < seeds; sd++) dispatch_case(oi, N, sd);
     }
+  }
+  // accelerated kernels under concurrency (hidden shared scratch would make them differ from the reference)
+  {
+    static const uint64_t CN[] = {8, 64, 1024, 8192};
+    for (size_t ni = 0; ni < ARRAY_LEN(CN); ni++)
+      for (int oi = 0; oi < N_CAT_OPS; oi++)
+        if ((OPS[oi].flags & OPF_AVX) && OPS[oi].twin)
+          for (unsigned rep = 0; rep < (th ? 6u : 1u); rep++) concurrent_pair_case(oi, CN[ni], rep);
   }
   for (size_t ni = 0; ni < N_ALL_N; ni++)
     for (int fam = 0; fam < 9; fam++)
